@@ -1400,7 +1400,14 @@ class SyncedStackedTransforms(StackedTransforms):
             pass
 
         fn.__code__ = code
-        fn.__ptera_info__ = info
-        fn.__ptera_token__ = token
         fn.__ptera_discard__ = False
-        fn.__globals__[fn.__ptera_token__] = fn
+        if info is None:
+            # Back to the original function, which was not tooled: do not
+            # leave anything behind that makes it look like it is
+            if hasattr(fn, "__ptera_info__"):
+                del fn.__ptera_info__
+                del fn.__ptera_token__
+        else:
+            fn.__ptera_info__ = info
+            fn.__ptera_token__ = token
+            fn.__globals__[fn.__ptera_token__] = fn
